@@ -4,78 +4,23 @@ import (
 	"encoding/json"
 	"fmt"
 	"math"
-	"bytes"
 
 	"github.com/bytedance/sonic"
-	"github.com/bytedance/sonic/verifx"
 )
 
-type PJ struct{ A int }
-
-func (p *PJ) MarshalJSON() ([]byte, error) { return []byte(`"PJ"`), nil }
-
-type SP struct{ P *int }
-
-func (s SP) String() string { return "sp" }
-
-type Stringer interface{ String() string }
-
-type L struct{ Next *L }
-
-type Big struct {
-	F0, F1, F2, F3, F4, F5, F6, F7, F8, F9                     int
-	G0, G1, G2, G3, G4, G5, G6, G7, G8, G9                     int
-	H0, H1, H2, H3, H4, H5, H6, H7, H8, H9                     int
-	I0, I1, I2, I3, I4, I5, I6, I7, I8, I9                     int
-	J0, J1, J2, J3, J4, J5, J6, J7, J8, J9                     int
-	E                                                          interface{}
-}
-
-func std(v interface{}) string {
-	var b bytes.Buffer
-	e := json.NewEncoder(&b)
-	e.SetEscapeHTML(true)
-	if err := e.Encode(v); err != nil {
-		return "ERR " + err.Error()
-	}
-	return string(bytes.TrimRight(b.Bytes(), "\n"))
-}
-func son(v interface{}) string {
-	b, err := sonic.ConfigStd.Marshal(v)
-	if err != nil {
-		return "ERR " + err.Error()
-	}
-	return string(b)
-}
-func cmp(name string, v interface{}) {
-	a, b := std(v), son(v)
-	if len(a) > 200 { a = a[:200] }
-	if len(b) > 200 { b = b[:200] }
-	st := "same"
-	if a != b { st = "DIFF" }
-	fmt.Printf("%-28s %s\n   std  : %s\n   sonic: %s\n", name, st, a, b)
-}
-
 func main() {
-	cmp2 := func(name string, v interface{}) {
-		verifx.EncResetProgramCache()
-		a, b := std(v), son(v)
-		st := "same"
-		if a != b { st = "DIFF" }
-		if len(a) > 60 { a = a[len(a)-60:] }
-		if len(b) > 60 { b = b[len(b)-60:] }
-		fmt.Printf("%-28s %s\n   std  : %s\n   sonic: %s\n", name, st, a, b)
+	for _, in := range []string{"-0", "-0.0", "-0e0", "[-0]", "-0.00000", "-0E+5"} {
+		var f float64
+		var g float64
+		e1 := sonic.ConfigStd.UnmarshalFromString(in, &f)
+		e2 := json.Unmarshal([]byte(in), &g)
+		var f32 float32
+		sonic.ConfigStd.UnmarshalFromString(in, &f32)
+		var i interface{}
+		sonic.ConfigStd.UnmarshalFromString(in, &i)
+		fmt.Printf("%-10s sonic %v signbit=%v err=%v | std %v signbit=%v err=%v | f32 signbit=%v | iface %v\n", in, f, math.Signbit(f), e1, g, math.Signbit(g), e2, math.Signbit(float64(f32)), i)
 	}
-	cmp2("eface in recursed pv", &[]Big{{E: PJ{1}}})
-	cmp2("eface not recursed", &struct{ E interface{} }{PJ{1}})
-	cmp2("eface in recursed nonpv", map[string]Big{"a":{E: PJ{1}}})
-	cmp2("slice of PJ", []PJ{{1}})
-	cmp2("map of PJ", map[string]PJ{"a":{1}})
-	cmp2("array of PJ", [1]PJ{{1}})
-	cmp2("ptr array of PJ", &[1]PJ{{1}})
-	cmp2("struct of PJ", struct{X PJ}{PJ{1}})
-	cmp2("ptr struct of PJ", &struct{X PJ}{PJ{1}})
-	cmp2("iface ptr-shaped nil", struct{ S Stringer }{SP{nil}})
-	cmp2("iface ptr nil", struct{ S Stringer }{(*SP)(nil)})
-	_ = math.Pi
+	var s []float64
+	sonic.ConfigDefault.UnmarshalFromString("[-0, -0.0]", &s)
+	fmt.Println(math.Signbit(s[0]), math.Signbit(s[1]))
 }
